@@ -31,6 +31,8 @@ def main():
             if os.path.exists(demo):
                 dm = sh('PYTHONPATH=%s/py34 timeout 300 /venv/bin/python %s' % (REPO, demo), cwd=d)
                 r['demo_fails_with_change'] = dm.returncode != 0
+            tp = sh('cd %s && PYTHONPATH=%s/py34 timeout 900 /venv/bin/python -m pytest -q -p no:cacheprovider --timeout=900 tests 2>&1 | tail -1' % (REPO, REPO))
+            r['tests_with_change'] = tp.stdout.strip()[-80:]
             t0 = time.time()
             c = sh('cd %s && timeout 1500 ./check %s --tier quick' % (VERIF, prop))
             r['wall_s'] = round(time.time() - t0, 1)
